@@ -1,8 +1,9 @@
 // ---------------------------------------------------------------------------------
 // shims/serlen_leaves.rs - the leaf types of the length-agreement sweep as *assumed* component contracts
 // for the later units: each is an opaque value with a wire image; to_writer appends it, write_len() is its
-// length, which is the constant / sum U75a PROVES on the real impls.  Include after shims/io.rs,
-// shims/secret_reader.rs.
+// length, which is the constant / sum U75a PROVES on the real impls.  Include after shims/io_sink.rs
+// and shims/serlen_sink.rs (or shims/io.rs and shims/secret_reader.rs: the impls are contract-free stubs of whichever
+// Serialize trait is in scope; U75a proves the stronger one, with the same_dest clause).
 // ---------------------------------------------------------------------------------
 //@trusted T4 Timestamp, Duration (4 octets), Ed25519PublicParams (32), Ed448PublicParams (57), X25519PublicParams (32), X448PublicParams (56), ElgamalPublicParams (three MPIs): `impl Serialize`: to_writer appends wire(), write_len() == |wire()| == the stated size (proved in U75a)
 #[verifier::external_body]
